@@ -169,13 +169,13 @@ static void long_history(Conf const &c, bool same_step, int LH, Result &r)
     vproxy *px = new vproxy(4, same_step);
     px->set_target_temperature(c.temperature);
     long_place(*px, s);
-    if (px->config(c.text) != 0) { fprintf(stderr, "HARNESS-ERROR: %s rejected (long history): %s\n", c.name, px->errtxt.c_str()); exit(2); }
+    if (px->config(c.text) != 0) { fprintf(stderr, "HARNESS-ERROR: %s rejected (long history): %s\n", c.name, px->errtxt.c_str()); exit(3); }
     return px;
   };
   // uninterrupted run
   std::vector<std::vector<double>> o0(LH);
   vproxy *px = fresh(0);
-  for (long s = 0; s < LH; s++) { long_place(*px, s); if (px->step(s) != 0) { fprintf(stderr, "HARNESS-ERROR: %s long history step error: %s\n", c.name, px->errtxt.c_str()); exit(2); } o0[s] = long_obs(*px); r.count("transitions"); }
+  for (long s = 0; s < LH; s++) { long_place(*px, s); if (px->step(s) != 0) { fprintf(stderr, "HARNESS-ERROR: %s long history step error: %s\n", c.name, px->errtxt.c_str()); exit(3); } o0[s] = long_obs(*px); r.count("transitions"); }
   px->end_run();
   std::string final0 = px->state_text();
   delete px;
@@ -259,12 +259,12 @@ int main(int argc, char **argv)
         std::string err;
         // ---- R0: uninterrupted, nothing saved before the end ----
         Driver d0(c, ss != 0);
-        if (!d0.fresh(word[0], 0, err)) { fprintf(stderr, "HARNESS-ERROR: %s rejected: %s\n", c.name, err.c_str()); exit(2); }
+        if (!d0.fresh(word[0], 0, err)) { fprintf(stderr, "HARNESS-ERROR: %s rejected: %s\n", c.name, err.c_str()); exit(3); }
         std::vector<Obs> o0(L);
         std::vector<std::string> st_text(L);
         std::vector<std::vector<unsigned char>> st_bin(L);
         for (int s = 0; s < L; s++) {
-          if (!d0.step(word[s], s, o0[s], err)) { fprintf(stderr, "HARNESS-ERROR: %s step error: %s\n", c.name, err.c_str()); exit(2); }
+          if (!d0.step(word[s], s, o0[s], err)) { fprintf(stderr, "HARNESS-ERROR: %s step error: %s\n", c.name, err.c_str()); exit(3); }
           r.count("transitions");
         }
         d0.px->end_run();
@@ -273,10 +273,10 @@ int main(int argc, char **argv)
         for (int K = 0; K < L - 1; K++) {
           Driver dk(c, ss != 0);
           delete d0.px; d0.px = NULL;
-          if (!dk.fresh(word[0], 0, err)) { fprintf(stderr, "HARNESS-ERROR: %s rejected\n", c.name); exit(2); }
+          if (!dk.fresh(word[0], 0, err)) { fprintf(stderr, "HARNESS-ERROR: %s rejected\n", c.name); exit(3); }
           Obs ok;
           for (int s = 0; s <= K; s++) {
-            if (!dk.step(word[s], s, ok, err)) { fprintf(stderr, "HARNESS-ERROR: %s step error: %s\n", c.name, err.c_str()); exit(2); }
+            if (!dk.step(word[s], s, ok, err)) { fprintf(stderr, "HARNESS-ERROR: %s step error: %s\n", c.name, err.c_str()); exit(3); }
             r.count("transitions");
           }
           dk.px->end_run();
@@ -326,7 +326,7 @@ int main(int argc, char **argv)
               }
             }
             Driver d1(c, ss != 0);
-            if (!d1.fresh(word[K], K, err)) { fprintf(stderr, "HARNESS-ERROR: %s rejected on restart\n", c.name); exit(2); }
+            if (!d1.fresh(word[K], K, err)) { fprintf(stderr, "HARNESS-ERROR: %s rejected on restart\n", c.name); exit(3); }
             if (bin) d1.px->queue_state_binary(st_bin[K]); else d1.px->queue_state_text(st_text[K]);
             Obs o;
             for (int s = K; s < L; s++) {
